@@ -775,7 +775,7 @@ Proof.
       rewrite T0_set_thr, Fq_set_thr, Sq_set_thr, E1, E2. split; [|exact I].
       unfold Fq in G at 1. rewrite EF in G. apply (GI_pop _ _ _ _ _ _ G).
   - (* PN8 *)
-    destruct Hloc as [Hk Hx]. rewrite Hx. cbn [Z.eqb base byp].
+    destruct Hloc as [Hk Hx]. rewrite Hx. change (2 =? 5)%Z with false. cbv iota. cbn [base byp].
     pose proof (Hfib x0) as [_ _ _ _ Hrx]. destruct x0 as [|y']; [lia|].
     assert (HG : GI N (fstt s) (Fq s) (Sq s) 0
                    (fun g => if Nat.eqb g (S y') then 0 else if Z.eqb (fstt s g) 2 then S (byp x g) else byp x g)).
@@ -830,4 +830,93 @@ Proof.
     + unfold gloc; cbn [pc with_pc]. apply (g_zero _ _ _ _ _ _ G). lia.
   - (* Fin *)
     cbn [fst]. unfold gloc, pendT, T0. fold s. rewrite <- HT, Hpc. split; [exact G|exact I].
+Qed.
+
+Lemma ginit N prog : prog_ok N prog -> GInv N (iinit true prog).
+Proof.
+  intros Hp. pose proof (init_inv N prog Hp) as I0.
+  assert (Hr : run (fst (init true [prog])) 0) by (left; reflexivity).
+  destruct (start_spec N (fst (init true [prog])) 0 prog 0 1 Hp Hr) as (_ & _ & _ & _ & Hs).
+  destruct (startpc_g (fun _ => 0) _ Hs) as [A B].
+  constructor; cbn [base byp iinit]; auto.
+  change (T0 (fst (init true [prog]))) with (snd (start 0 0 prog 1)). rewrite B.
+  constructor; auto; try lia.
+  - intros g [].
+  - intros [|p] g H; discriminate.
+Qed.
+
+Theorem ireach_ginv N prog x : prog_ok N prog -> ireach true prog x -> GInv N x.
+Proof.
+  intros Hp R. induction R as [|x t R IH Hst].
+  - apply ginit; exact Hp.
+  - rewrite (ready_thread0 N (base x) t (g_inv N x IH) Hst). apply gstep. exact IH.
+Qed.
+
+(* C10: the bypass bound *)
+Lemma bypass_bound N prog x g :
+  prog_ok N prog -> ireach true prog x -> byp x g <= 2 * (N - 1).
+Proof. intros Hp R. apply (g_all _ _ _ _ _ _ (g_gi N x (ireach_ginv N prog x Hp R))). Qed.
+
+(* sharper bounds by position (the invariant itself) *)
+Lemma bypass_bound_by_position N prog x :
+  prog_ok N prog -> ireach true prog x ->
+  (forall g, fstt (base x) g <> 2%Z -> byp x g = 0) /\
+  (forall g, In g (Sq (base x)) -> byp x g + length (Fq (base x)) + 1 <= N) /\
+  (forall p g, nth_error (Fq (base x)) p = Some g -> byp x g + p + 2 <= 2 * N).
+Proof.
+  intros Hp R. destruct (g_gi N x (ireach_ginv N prog x Hp R)) as [Hz HS HF _].
+  split; [exact Hz|]. split.
+  - intros g Hg. specialize (HS g Hg). lia.
+  - intros p g Hg. specialize (HF p g Hg). lia.
+Qed.
+
+(* ------------------------------------------------------------------ *)
+(* progress of a READY fiber, without liveness: count the hand-outs      *)
+Definition queued (s : st) (g : nat) : Prop := In g (Fq s ++ Sq s).
+Definition pendingR (x : ist) (g : nat) : Prop :=
+  queued (base x) g \/ exists k, pc (T0 (base x)) = PN8 k g.
+
+Lemma pending_ready N s g : Inv N s -> (queued s g \/ exists k, pc (T0 s) = PN8 k g) -> fstt s g = 2%Z.
+Proof.
+  intros I [H|[k H]].
+  - apply (f_queued _ _ _ _ _ _ (i_fib N s I g)). rewrite <- cnt_app. apply cnt_In. exact H.
+  - pose proof (i_loc N s I) as L. unfold lok in L. rewrite H in L. apply L.
+Qed.
+
+(* a queued fiber stays queued until next() pops it *)
+Lemma queue_mono N s g : Inv N s -> queued s g ->
+  queued (fst (step s 0)) g \/ exists k, pc (T0 (fst (step s 0))) = PN8 k g.
+Proof.
+  intros I0 H. pose proof I0 as [Hn Hts Hfrom Hto Hfib Hprog Hloc].
+  unfold queued in *. unfold step. unfold T0 in Hloc, Hto. remember (thr s 0) as T eqn:HT.
+  unfold lok in Hloc.
+  destruct (pc T) eqn:Hpc; try contradiction;
+    try (assert (Hto' : sto s 0 = 3 - sfrom s 0) by (apply Hto; congruence)).
+  all: try (left; repeat match goal with |- context [match ?b with _ => _ end] => destruct b end; exact H).
+  - (* PSched *)
+    rewrite Hts, Hto'. destruct (Fq_push s (f :: dq s (3 - sfrom s 0)) Hfrom) as [EF ES].
+    left. destruct Hloc as [_ Hk].
+    destruct k; try contradiction;
+      match goal with |- context [finish ?a ?b ?c ?d] => destruct (finish a b c d) end; cbn [fst];
+      rewrite Fq_set_thr, Sq_set_thr, EF, ES; apply in_app_or in H; apply in_or_app;
+      (destruct H; [left; auto|right; right; auto]).
+  - (* PN4 *)
+    destruct Hloc as (Hk & HF & Htmp & Hsv). subst sv tmp. cbn [fst].
+    destruct (Fq_swap s Hfrom) as [EF ES]. left.
+    rewrite Fq_set_thr, Sq_set_thr, EF, ES. apply in_app_or in H; apply in_or_app; tauto.
+  - (* PN6 *)
+    left. destruct (dq s (sfrom s 0)); [|exact H].
+    unfold next_ret. destruct k; try contradiction;
+      match goal with |- context [finish ?a ?b ?c ?d] => destruct (finish a b c d) end; exact H.
+  - (* PN7 *)
+    destruct (dq s (sfrom s 0)) as [|y rest] eqn:EF; [left; exact H|].
+    cbn [fst]. destruct (Fq_pop s rest Hfrom) as [E1 E2].
+    rewrite T0_set_thr, Fq_set_thr, Sq_set_thr, E1, E2. cbn [pc with_pc].
+    unfold Fq in H at 1. rewrite EF in H. destruct H as [<-|H]; [right; eauto|left; exact H].
+  - (* PN8 *)
+    left. destruct (Z.eqb (fstt s x) 5); [exact H|].
+    unfold next_ret. destruct k; try (exfalso; tauto); destruct x; exact H.
+  - (* PL1 *)
+    left. unfold lb_continue. rewrite Hn, lb_scan_1thread. unfold lb_ret.
+    destruct k; try match goal with |- context [finish ?a ?b ?c ?d] => destruct (finish a b c d) end; exact H.
 Qed.
